@@ -32,6 +32,7 @@ package tls
 //@ func fieldTagToFieldInfo
 //@ props C09 C04
 //@ pure
+//@ loop 1 invariant info != nil ==> info.count <= 4294967295
 //@ fresh result0
 //@ ensures [named-fields-always-get-info] result1 == nil && name != "" ==> result0 != nil
 //@ ensures [sizes-are-small] result1 == nil && result0 != nil ==> result0.count <= 4294967295
